@@ -288,14 +288,17 @@ class ValueGen:
             # optional fields sharing a flag, made inconsistent
             for f, lst in flags.items():
                 if len(lst) >= 2:
-                    (o1, c1), (o2, c2) = lst[0], lst[1]
-                    v = copy.deepcopy(base)
-                    # o1 present (flag = c1) and o2 such that flag = 1 - c1
-                    f1 = next(fl for fl in x["fields"] if A.field_id(fl) == o1)
-                    f2 = next(fl for fl in x["fields"] if A.field_id(fl) == o2)
-                    v[o1] = self._opt_value(f1)
-                    v[o2] = None if c2 == c1 else self._opt_value(f2)
-                    put(v, "condition:inconsistent")
+                    # every way of having exactly one of the optionals disagree with the others: all consistent
+                    # with flag value F, then the presence of the k-th one toggled (the guard has to look at
+                    # each of them, not at the first two)
+                    fdef = {o: next(fl for fl in x["fields"] if A.field_id(fl) == o) for o, _ in lst}
+                    for F in (0, 1):
+                        for k in range(len(lst)):
+                            v = copy.deepcopy(base)
+                            for j, (o, c) in enumerate(lst):
+                                present = (c == F) != (j == k)
+                                v[o] = self._opt_value(fdef[o]) if present else None
+                            put(v, "condition:inconsistent:%d-of-%d" % (k + 1, len(lst)))
         if A.get_payload(d) is not None and "payload" in base:
             sf = m.payload_size_field(d)
             if sf is not None and umax(sf["width"]) <= 4200:
